@@ -583,8 +583,8 @@ def call_lua_sandbox(
                 )
             else:
                 # Expand all templates, in case the Lua code actually
-                # inspects the output.
-                v = ctx._encode(v)
+                # inspects the output.  (expand() encodes the text itself,
+                # after it has set <nowiki> content aside.)
                 ctx.expand_stack.append("frame:preprocess()")
                 ret = expand_all_templates(v)
                 ctx.expand_stack.pop()
